@@ -232,7 +232,8 @@ def run_case(case, stats: Counter):
                                                          f"trace={list(info['trace'])}: {msg}"[:1400],
                                       "detail": {"trace": list(info["trace"]), "cancel_at": cancel_at}}
     stats["distinct_schedules"] += len(traces)
-    return {"violations": list(viols_out.values()), "evals": max(1, evals), "distinct": len(traces)}
+    return {"violations": list(viols_out.values()), "evals": max(1, evals), "distinct": len(traces),
+            "sample": dict(case, example_schedule=[list(map(str, t)) for t in list(traces)[:1]])}
 
 
 def finish(stats, tier):
